@@ -3,6 +3,7 @@ CONSTANTS
   MaxLen = 2
   SortedLen = 0
   NoForeignLen = 3
+  RepLen = 2
   OtherLen = 2
   WrapLen = 2
   ShareLen = 2
